@@ -39,6 +39,10 @@ def par_jvms():
 
 # ------------------------------------------------------------------------------------------- TLC jobs
 
+CAT3 = ("MCAreaGridCat3.cfg", "A-layer theorems + Judge accepts reference / rejects spoiled for every trapezoid / slanted quadrilateral / "
+                              "triangle (both orientations) and every rectangle with subdivided edges on G=3", False)
+
+
 def design_jobs(ctx):
     quick = ctx.tier == "quick"
     if quick:
@@ -46,16 +50,18 @@ def design_jobs(ctx):
                                        "function of the ways", True),
                 ("MCAreaGridThm2.cfg", "A-layer theorems, all pairs of rect/tri/dia/dense rect on G=2", False),
                 ("MCAreaGridThm3.cfg", "A-layer theorems + Judge accepts reference / rejects spoiled, all pairs of rect/dia on G=3", False),
-                ("MCAreaGridTile.cfg", "tiling theorem: chains of 2 and 3 copies of every motif of <= 2 rings (kite/dia) on G=4", False)]
+                ("MCAreaGridTile.cfg", "tiling theorem: chains of 2 and 3 copies of every motif of <= 2 rings (kite/dia) on G=4", False),
+                CAT3]
     return [("MCAreaGridDrawT.cfg", "builder: every drawing of the unit square and the triangles (G=1), all styles/mutations", True),
             ("MCAreaGridThm2.cfg", "A-layer theorems, all pairs of rect/tri/dia/dense rect on G=2", False),
             ("MCAreaGridThm3T.cfg", "A-layer theorems + Judge accepts reference / rejects spoiled, all pairs of rect/dia/L on G=3", False),
             ("MCAreaGridThm7.cfg", "A-layer theorems + Judge reference on chains of up to 4 nested rectangles (hole in island) on G=7", False),
-            ("MCAreaGridTile.cfg", "tiling theorem: chains of 2 and 3 copies of every motif of <= 2 rings (kite/dia) on G=4", False)]
+            ("MCAreaGridTile.cfg", "tiling theorem: chains of 2 and 3 copies of every motif of <= 2 rings (kite/dia) on G=4", False),
+            CAT3]
 
 
 def export_plan(ctx):
-    """(cfg, behaviours, tag); every behaviour yields Drawings (= 4; deep nesting 3, tiles 2) cases"""
+    """(cfg, behaviours, tag); every behaviour yields Drawings (= 4; deep nesting 3, tiles 2, hole over island 2 (G=8: 3)) cases"""
     plan = export_plan_full(ctx)
     scale = float(os.environ.get("VERIF_C10_SCALE", "1") or "1")      # development only: fewer behaviours
     return [(cfg, max(8, int(n * scale)), tag) for cfg, n, tag in plan]
@@ -64,10 +70,11 @@ def export_plan(ctx):
 def export_plan_full(ctx):
     if ctx.tier == "quick":
         return [("GenAreaGrid4.cfg", 230, "g4"), ("GenAreaGrid4N.cfg", 130, "g4n"), ("GenAreaGrid4T.cfg", 130, "g4t"),
-                ("GenAreaGrid7N.cfg", 70, "g7n"), ("GenAreaGridTile4.cfg", 40, "tile4")]
+                ("GenAreaGrid7N.cfg", 70, "g7n"), ("GenAreaGridTile4.cfg", 40, "tile4"), ("GenAreaGridIsle7.cfg", 160, "isle7")]
     return [("GenAreaGrid4.cfg", 2600, "g4"), ("GenAreaGrid4N.cfg", 1500, "g4n"), ("GenAreaGrid4T.cfg", 1500, "g4t"),
             ("GenAreaGrid5.cfg", 1200, "g5"), ("GenAreaGrid5N.cfg", 800, "g5n"), ("GenAreaGrid5T.cfg", 800, "g5t"),
-            ("GenAreaGrid7N.cfg", 600, "g7n"), ("GenAreaGridTile4.cfg", 200, "tile4")]
+            ("GenAreaGrid7N.cfg", 600, "g7n"), ("GenAreaGridTile4.cfg", 200, "tile4"),
+            ("GenAreaGridIsle7.cfg", 1500, "isle7"), ("GenAreaGridIsle8.cfg", 300, "isle8")]
 
 
 def run_tlc_jobs(ctx):
@@ -256,8 +263,9 @@ def process(ctx, cases, tag):
         r = res[c["id"]]
         if not r.get("ok") or "crash" in r:
             what = ("real assembler %s: %s" % (r.get("crash", "failed"), (r.get("stderr") or r.get("note") or "")[:700]))
-            ctx.violation("harness %s ways=%s roles=%s" % (r.get("crash", "exception"), json.dumps(c["ways"], separators=(",", ":")),
-                                                           json.dumps(c["roles"])), {"case": c, "result": r}, what)
+            tile = ("tile=n%d/touch%d motif_rings=%d " % (c["tile"]["n"], c["tile"]["ntouch"], c.get("nrings", 0))) if "tile" in c else ""
+            ctx.violation("harness %s %sways=%s roles=%s" % (r.get("crash", "exception"), tile, json.dumps(c["ways"], separators=(",", ":")),
+                                                             json.dumps(c["roles"])), {"case": c, "result": r}, what)
             continue
         for rec in records_of(c, r):
             byg.setdefault(c["G"], []).append(rec)
@@ -338,7 +346,8 @@ def run(ctx):
             ctx.sample({k2: c[k2] for k2 in ("G", "ways", "roles", "exp", "variants", "tile") if k2 in c}, cap=10)
     ctx.assumptions = [
         "grid 0..G (G=4, thorough also 5; G=7 for chains of up to 4 nested rectangles), <= 3 (4) catalogue rings and <= 26 segments "
-        "per case; embeddings into Locations are affine with "
+        "per case; scripted family 'hole over island' (G=7, thorough also 8): outer ring with subdivided edges, hole, non-rectangular "
+        "island in it, second hole over the island, under the 8 symmetries of the grid, <= 48 (54) segments; embeddings into Locations are affine with "
         "positive factors (1e-3 degree steps, 3x7 units below +2^29, unit steps above -2^29, the whole +-2^29 range, around 0/0)",
         "region equality and 'inner inside outer' are evaluated on 2G x 2G generic sample points (exact per point); together with "
         "'ring segments = input segments' this decides region equality exactly for the catalogue's shapes",
@@ -401,7 +410,7 @@ def selftest(ctx):
 def replay(ctx, path):
     with open(path) as fh:
         d = json.load(fh)
-    cases = d["case"]["cases"]
+    cases = d["case"]["cases"] if "cases" in d["case"] else [d["case"]["case"]]       # a group of cases / one case the harness failed on
     n = process(ctx, cases, "replay")
     ctx.traces = len(cases)
     ctx.evaluations = n
